@@ -35,8 +35,9 @@ CLAIM = dict(
          "yields the value iff the value is ready no later than the deadline (tie: value), else Elapsed at the deadline; interval ticks are "
          "start + k*period when no tick is more than 5 ms late and always under Burst, Delay re-bases on now, Skip jumps to the next "
          "aligned instant after now. The pinned next() (front slot only) is refuted in Coq by the history register a@5, drop a, "
-         "register b@10, deactivate. The COMPOSITION of these layers with the task executor and the event set (coq/Timer/Model.v) is "
-         "validated, not proved: on every invocation scripted async modules (sleep, sleep_until, timeout, interval with all three "
+         "register b@10, deactivate. In the composite model (coq/Timer/Model.v: scripted tasks, FIFO executor, drivers, event set) every "
+         "module event is proved to be one such driver event with a contract-respecting operation list; beyond that the COMPOSITION "
+         "of these layers with the task executor and the event set is validated, not proved: on every invocation scripted async modules (sleep, sleep_until, timeout, interval with all three "
          "missed-tick behaviours, select!, Sleep::reset, dropped pinned sleeps; several tasks, 1-2 modules, tasks spawned at start-up or "
          "by messages) run on the real des runtime and must reproduce the extracted model's per-task logs, run result and end time, and "
          "an independent monitor checks on the implementation's log that every await returned at exactly the deadline computed from the script.",
@@ -420,6 +421,8 @@ def gen(rng, n):
         yield gen_script(rng)
 
 
+EX_SMALL = [("sleep", 5), ("sleep", 10), ("sleep", 15), ("timeout", 10, 5), ("timeout", 5, None),
+            ("select", True, 5, 10), ("select", True, 10, 10), ("reset", True, 5, 10), ("drop", 5)]
 EX_ALPHABET = [("sleep", 5), ("sleep", 10), ("sleep", 15),
                ("timeout", 10, 5), ("timeout", 10, 10), ("timeout", 10, 15), ("timeout", 5, None),
                ("select", True, 5, 10), ("select", True, 10, 10), ("select", True, 15, 10),
@@ -427,11 +430,15 @@ EX_ALPHABET = [("sleep", 5), ("sleep", 10), ("sleep", 15),
 
 
 def exhaustive():
-    """all scripts of two tasks on one module, first task <= 3 steps, second <= 2 steps (and started at 0 or at 5), over the
-    13-symbol alphabet built from the three durations 5/10/15"""
+    """(1) every script of two tasks on one module, both spawned at start-up, each of <= 3 steps over the 9-symbol alphabet
+    EX_SMALL (durations 5/10/15), up to the order of the two tasks; (2) every script of two tasks on one module, the first of
+    <= 3 steps spawned at start-up, the second of 1..2 steps spawned by a message at t=5, over the 13-symbol alphabet EX_ALPHABET"""
+    seqs = [s for n in range(0, 4) for s in itertools.product(EX_SMALL, repeat=n)]
+    for i, a in enumerate(seqs):
+        for b in seqs[i:]:
+            yield encode(1, [{"mod": 0, "start": 0, "steps": list(a)}, {"mod": 0, "start": 0, "steps": list(b)}])
     seqs3 = [s for n in range(0, 4) for s in itertools.product(EX_ALPHABET, repeat=n)]
     seqs2 = [s for n in range(1, 3) for s in itertools.product(EX_ALPHABET, repeat=n)]
     for a in seqs3:
         for b in seqs2:
-            for st in (0, 5):
-                yield encode(1, [{"mod": 0, "start": 0, "steps": list(a)}, {"mod": 0, "start": st, "steps": list(b)}])
+            yield encode(1, [{"mod": 0, "start": 0, "steps": list(a)}, {"mod": 0, "start": 5, "steps": list(b)}])
